@@ -32,11 +32,21 @@ func (c *chunkReader) Read(p []byte) (int, error) {
 // parseItems returns what ansi.Parser delivers for the bytes read as one chunk (prints
 // unmerged: one per grapheme cluster, exactly what the input goroutine receives).
 func parseItems(b []byte) []Item {
+	out, timerEsc := parseItemsOnce(b)
+	for n := 0; n < hx.TimerEscRetries && timerEsc; n++ {
+		out, timerEsc = parseItemsOnce(b) // scheduling artefact, see hx.IsTimerEsc
+	}
+	return out
+}
+
+func parseItemsOnce(b []byte) (out []Item, timerEsc bool) {
 	p := ansi.NewParser(&chunkReader{rest: append([]byte(nil), b...)})
-	var out []Item
 	for seq := range p.Next() {
 		if _, ok := seq.(ansi.EOF); ok {
 			break
+		}
+		if hx.IsTimerEsc(seq) {
+			timerEsc = true
 		}
 		it, ok := fromSeq(seq)
 		if !ok {
@@ -48,7 +58,7 @@ func parseItems(b []byte) []Item {
 		}
 		out = append(out, it)
 	}
-	return out
+	return out, timerEsc
 }
 
 // ---------- a real Vaxis on the fake console ----------
